@@ -114,9 +114,23 @@ func init() {
 		var a struct {
 			Desc  json.RawMessage   `json:"desc"`
 			Insts []json.RawMessage `json:"insts"`
+			// history: Schema values marshaled (successfully or not) before the one under test
+			Pre []json.RawMessage `json:"pre"`
 		}
 		if err := json.Unmarshal(args, &a); err != nil {
 			return nil, err
+		}
+		for _, pd := range a.Pre {
+			ps, _, err := buildSchemas(pd)
+			if err != nil {
+				return nil, err
+			}
+			func() {
+				defer func() { recover() }()
+				for i := 0; i < 3; i++ {
+					json.Marshal(ps)
+				}
+			}()
 		}
 		s, _, err := buildSchemas(a.Desc)
 		if err != nil {
